@@ -8,6 +8,7 @@ pub mod c07;
 pub mod c08;
 pub mod c09;
 pub mod c10;
+pub mod c11;
 pub mod c13;
 pub mod c14;
 
@@ -22,6 +23,7 @@ pub fn dispatch(prop: &str, run: &mut Run) {
         "C08" => c08::run(run),
         "C09" => c09::run(run),
         "C10" => c10::run(run),
+        "C11" => c11::run(run),
         "C13" => c13::run(run),
         "C14" => c14::run(run),
         _ => {
